@@ -23,8 +23,9 @@ LEVEL_NOTE = ("Trusted: Coq kernel, extraction, driver.ml, harness, numpy as exe
               "(untrusted) and re-checked exactly by check_y_bracket. Axioms: stdlib real-number axioms, Classical_Prop.classic, "
               "functional_extensionality_dep (Coquelicot). Residual: (d, delta) are sampled; floats math.cosh/acosh only propose the bracket "
               "and place the sampled overlaps.")
-RULE = ("d = 1..25 and {40, 79, 100, 150, 200} (quick: 1..12, 25, 79, 90, 200), delta in {1e-3, 0.1, 0.3, 0.5, 0.9, 0.97, 0.9995, 0.999999}; per (d, delta): delta "
-        "path, gamma path, return_alpha, repeated in one process with other gammas in between; 24 overlaps incl. 0, 1 and the fixed-point "
+RULE = ("d = 1..25 and {40, 79, 100, 150, 200} (quick: 1..12, 25, 79, 90, 200), delta in {1e-3, 0.1, 0.3, 0.5, 0.9, 0.97, 0.9995, 0.999999} plus very small delta "
+        "1e-5..1e-20 for d in 2..40 (quick: four pairs); per (d, delta): delta path, gamma path, return_alpha, repeated in one process with other gammas "
+        "and a shorter request in between, every returned vector held and re-read after the last call; 24 overlaps incl. 0, 1 and the fixed-point "
         "width; distinct by JSON; non-trivial = d >= 2")
 TRUSTED = ["Coq 8.16.1 kernel", "extraction (ExtrOcamlBasic, ExtrOcamlZBigInt) + driver.ml + zarith", "harness (impl_runner.py, impl_handlers5.py)",
            "numpy as executor; math.cosh/acosh/cos/acos only for the sampled-overlap sub-check and to propose the y bracket"]
@@ -100,7 +101,18 @@ def run(ctx):
                          {"d": d, "delta": hexf(delta), "return_alpha": True}, {"d": d, "delta": hexf(delta)}]
                 if delta == 0.1:
                     calls.append({"d": d})
+                if d > 1:
+                    calls.append({"d": d - 1, "delta": hexf(0.3)})      # a later, shorter request while the earlier vectors are still held
                 cases.append({"fn": "fpsearch", "calls": calls, "d": d, "delta": delta, "timeout": 300})
+        # very small delta (the documented command line goes down to 1e-20): 1/delta is huge, T_{1/L} must not lose the decaying half
+        for d, delta in ([(5, 1e-8), (10, 1e-9), (3, 1e-12), (20, 1e-6)] if quick else
+                         [(d, dl) for d in (2, 3, 5, 7, 10, 20, 40) for dl in (1e-5, 1e-6, 1e-7, 1e-8, 1e-9, 1e-12, 1e-20)]):
+            L = 2 * d + 1
+            gamma = 1 / math.cosh(math.acosh(1 / delta) / L)
+            other = 1 / math.cosh(math.acosh(1 / (delta * 0.5)) / L)
+            calls = [{"d": d, "delta": hexf(delta)}, {"d": d, "gamma": hexf(other)}, {"d": d, "gamma": hexf(gamma)},
+                     {"d": d, "delta": hexf(delta), "return_alpha": True}, {"d": d, "delta": hexf(delta)}]
+            cases.append({"fn": "fpsearch", "calls": calls, "d": d, "delta": delta, "timeout": 300})
     impl = run_impl(cases, timeout=3000)
     lines, keep = [], []
     for c, r in zip(cases, impl):
@@ -110,6 +122,11 @@ def run(ctx):
             ctx.fail("fpsearch", c, "raised %s: %s" % (r["exc"], r.get("msg", "")[:100]))
             continue
         res = r["ok"]
+        if isinstance(res, dict):
+            if res["changed_later"]:
+                ctx.fail("fpsearch", c, "phase vectors returned by calls %s were modified by later generate() calls (shared storage)" % res["changed_later"])
+                continue
+            res = res["out"]
         ph_delta, ph_other, ph_gamma, alpha, ph_again = res[:5]
         if len(ph_delta) != 2 * d or any(("nan" in x or "inf" in x) for x in ph_delta):
             ctx.fail("fpsearch", c, "returned %d phases for d = %d (or non-finite entries)" % (len(ph_delta), d))
@@ -117,7 +134,7 @@ def run(ctx):
         if ph_delta != ph_delta[::-1]:
             ctx.fail("fpsearch", c, "the 2d phases are not palindromic")
             continue
-        if ph_again != ph_delta or (len(res) > 5 and res[5] != ph_delta):
+        if ph_again != ph_delta or (len(c["calls"]) > 5 and set(c["calls"][5]) == {"d"} and res[5] != ph_delta):
             ctx.fail("fpsearch", c, "the same request gives different phases later in the same process (or default delta != 0.1)")
             continue
         dev = max(abs(float.fromhex(x) - float.fromhex(y)) for x, y in zip(ph_gamma, ph_delta))
